@@ -92,6 +92,7 @@ class CloneWithoutRegions(Spec):
             st.ghost["created"] = r  # per-path record
             return [Res("val", VRef(r, "Operation"), st)]
 
+        b_create.ghost_modifies = ["created"]
         return {"self.create": Builtin(b_create, "Operation.create: TRUSTED allocation contract")}
 
     def bind(self, st, a, inst):
